@@ -108,8 +108,12 @@ def h_delete(eng, fmt, mode, focus="tables"):
         if not versions_focus:
             for var, val in ((base_id, 1), (d1, 2), (d2, 3), (r1, 4), (r2, 5), (r3, 6), (vS, 2), (vS2, 4), (vT, 2)):
                 eng.assume(var == val)
-        defs = {base_id: (["libfoo.so"], 1), d1: (["VERS_1"], 0), d2: (["VERS_2", "VERS_1"], 0)}
+        # VER_FLG_BASE is a bit: the base definition may carry other flag bits (VER_FLG_WEAK = 2) as well
+        base_flags = eng.choose("base_flags", [1, 3]) if versions_focus else 1
+        defs = {base_id: (["libfoo.so"], base_flags), d1: (["VERS_1"], 0), d2: (["VERS_2", "VERS_1"], 0)}
+        defs_before = dict(defs)  # the table may be edited in place
         reqs = {"libc.so.6": {r1: "GLIBC_2.2.5", r2: "GLIBC_2.34"}, "libm.so.6": {r3: "GLIBC_2.29"}}
+        reqs_before = {lib: dict(v) for lib, v in reqs.items()}
         entries = {T: (vT, False), S2: (vS2, False)}
         if in_versions:
             entries[S] = (vS, True)
@@ -225,16 +229,16 @@ def h_delete(eng, fmt, mode, focus="tables"):
         def is_used(i):
             return Or(*[i == u for u in used]) if used else False
 
-        for i, (names, flags) in defs.items():
+        for i, (names, flags) in defs_before.items():
             present = any(eng.must(k == i) for k in defs2)
-            if flags == 1:
+            if flags & 1:
                 eng.check(present, "the base version definition was dropped")
             else:
                 eng.check(is_used(i) if present else Not(is_used(i)),
                           "version definition %s: %s although it is %s" % (names, "kept" if present else "dropped",
                                                                              "unused" if present else "still used"))
-        eng.check(len(defs2) <= len(defs), "version definitions appeared")
-        for lib, vers in reqs.items():
+        eng.check(len(defs2) <= len(defs_before), "version definitions appeared")
+        for lib, vers in reqs_before.items():
             left = 0
             for i, vname in vers.items():
                 present = lib in reqs2 and any(eng.must(k == i) for k in reqs2[lib])
